@@ -39,6 +39,9 @@ type c01Case struct {
 	// an argument of that many characters is inserted at position LongPos
 	LongStanza int `json:"longStanza,omitempty"`
 	LongPos    int `json:"longPos,omitempty"`
+	// Copy: the plaintext reaches the encrypting writer through io.Copy from a source without WriteTo
+	// ("data-eof": the last bytes arrive together with io.EOF; "then-eof": before it)
+	Copy string `json:"copy,omitempty"`
 }
 
 func c01Check(c c01Case, st *stats.Run) error {
@@ -55,7 +58,10 @@ func c01Check(c c01Case, st *stats.Run) error {
 		recs = append(recs[:pos:pos], append([]age.Recipient{long}, recs[pos:]...)...)
 		st.Label("long-stanza-line")
 	}
-	file, err := encryptLib(recs, plain, c.Segs, c.Armor)
+	file, err := encryptLibVia(recs, plain, c.Segs, c.Armor, c.Copy)
+	if c.Copy != "" {
+		st.Label("plaintext-fed-by-io.Copy:" + c.Copy)
+	}
 	if err != nil {
 		return pbt.Failf("C01/encrypt-failed", "encryption to a compatible recipient list failed: %v", err)
 	}
@@ -309,6 +315,7 @@ func c01Gen(t *rapid.T) c01Case {
 	c.After = fix(genForeignIDs(t, 3, filePass))
 	c.Plan = genReadPlan(t)
 	c.Delivery = genDelivery(t)
+	c.Copy = rapid.SampledFrom([]string{"", "", "", "data-eof", "then-eof"}).Draw(t, "copy")
 	return c
 }
 
